@@ -291,6 +291,9 @@ func c17Case(tier string, seed int64, idx int, scratch string) rt.CaseResult {
 	add(140 * scale)
 	if idx%4 >= 2 {
 		// reopen while several directories of a root are completely full, then keep writing
+		if idx%4 == 3 {
+			add(eff * 3 * nroots) // at least three more full directories per root
+		}
 		steps = append(steps, seqrun.Step{Op: "reopen", Actor: -1})
 		add(25 * scale)
 	}
